@@ -116,6 +116,11 @@ func (w *World) twinCheck(extra map[string]int) {
 			fmt.Sprintf("state after (early payloads of height %d, Reset) differs from (Reset, then the same %d payloads): %s", newH, len(early), diffFields(X, x2, fpSeenSkip)))
 	}
 	// --- twin 2: a node started afresh at this ledger position, receiving only the early payloads
+	if X.height+1 != newH {
+		// the early payloads completed the new height inside the Reset call itself: the ledger has moved on, the
+		// "ledger position at re-initialisation" is gone (twin 1 above still compares the two orders)
+		return
+	}
 	sc3 := *sc
 	sc3.e2cache = nil
 	sc3.StartHeight = X.height
